@@ -257,7 +257,7 @@ func byteMutate(g G, body []byte) []byte {
 
 func genC20(t *rapid.T) C20Case {
 	g := G{t}
-	o := GenOpts{MaxBiases: 3, ValueMode: -1, MaxAlts: 6, MaxCrit: 5, AllowProb: g.Chance(1, 4), AllowDisable: g.Chance(1, 4), Superfluous: true}
+	o := GenOpts{MaxBiases: 3, ValueMode: -1, MaxAlts: 6, MaxCrit: 5, AllowProb: g.Chance(1, 4), AllowDisable: g.Chance(1, 4), Superfluous: true, BiasLikeIds: true}
 	switch g.Int(0, 9) {
 	case 0, 1:
 		req := genRequest(t, GenOpts{MaxBiases: 3, ValueMode: -1, MaxAlts: 6}).Req
